@@ -1,6 +1,8 @@
 package main
 
 import (
+	"fmt"
+	"os"
 	"time"
 
 	"github.com/wmnsk/go-pfcp/ie"
@@ -19,6 +21,11 @@ type txRec struct {
 // watchHB observes the agent's Heartbeat Requests for at most d, answering according to answer(k, seq) where k counts
 // the transmissions of the current sequence number (1-based). It returns all transmissions seen.
 func watchHB(p *sysh.Peer, d time.Duration, start time.Time, answer func(k int, seq uint32) []message.Message, stop func(tx []txRec) bool) []txRec {
+	return watchReq(p, message.MsgTypeHeartbeatRequest, d, start, answer, stop)
+}
+
+// watchReq: the same for any request type the agent originates
+func watchReq(p *sysh.Peer, mtype uint8, d time.Duration, start time.Time, answer func(k int, seq uint32) []message.Message, stop func(tx []txRec) bool) []txRec {
 	var tx []txRec
 	count := map[uint32]int{}
 	deadline := time.Now().Add(d)
@@ -31,7 +38,7 @@ func watchHB(p *sysh.Peer, d time.Duration, start time.Time, answer func(k int, 
 			continue
 		}
 		m, err := message.Parse(r)
-		if err != nil || m.MessageType() != message.MsgTypeHeartbeatRequest {
+		if err != nil || m.MessageType() != mtype {
 			continue
 		}
 		count[m.Sequence()]++
@@ -69,7 +76,7 @@ func c12(c *ctx) {
 			w.close()
 			return
 		}
-		for k := 0; k <= N+1; k++ { // k = 0: never answer
+		for k := 0; k <= N+1 && os.Getenv("VERIF_C12_HBDUP") == ""; k++ { // k = 0: never answer
 			if !c.thorough() && N == 3 && (k == 2 || k == 3) {
 				continue
 			}
@@ -129,8 +136,17 @@ func c12(c *ctx) {
 			}
 		}
 		// late, duplicated and wrong-sequence responses: none of them may stop or wedge the exchange
+		hbdupReps := 1
+		if v := os.Getenv("VERIF_C12_HBDUP"); v != "" {
+			fmt.Sscanf(v, "%d", &hbdupReps)
+		}
+		var p *sysh.Peer
+		for rep := 0; rep < hbdupReps; rep++ {
+		if rep > 0 {
+			w.release(0)
+		}
 		w.assoc(0)
-		p := w.peers[0]
+		p = w.peers[0]
 		dpdrs, dfars, dqers := w.genSession(0)
 		w.nextCP++
 		dh, _ := w.est(0, w.nodes[0], w.nextCP, dpdrs, dfars, dqers, "c12")
@@ -168,6 +184,7 @@ func c12(c *ctx) {
 		}
 		w.emit("hbdup", true, map[string]interface{}{"k": "hbdup", "a": 0, "N": N, "rt_us": rt.Microseconds(),
 			"obs": map[string]interface{}{"alive": !w.s.Exited(), "tx": txJSON(series), "next_tx": txJSON(next), "served": served, "del_cause": delCause}})
+		}
 		// peer heartbeats: answered at any time with a constant Recovery Time Stamp; they postpone the agent's own heartbeat
 		var stamps []int64
 		quiet := time.Now()
@@ -198,6 +215,65 @@ func c12(c *ctx) {
 		span := time.Since(quiet)
 		w.emit("peerhb", true, map[string]interface{}{"k": "peerhb", "a": 0, "iv_us": iv.Microseconds(),
 			"obs": map[string]interface{}{"alive": !w.s.Exited(), "stamps": stamps, "agent_tx_during": txJSON(agentTx), "span_us": span.Microseconds()}})
+		w.close()
+	}
+	// ---- the agent's own Association Setup Request towards a configured peer: answered at transmission k with an accepting, a rejecting
+	// or an incomplete response, or never; it is transmitted at most 1 + N times, spaced by resp_timeout, with one sequence number, and
+	// no further transmission follows a response with that sequence number - whatever the response says
+	for _, sc := range []struct {
+		name string
+		N, k int // k = 0: never answered
+	}{{"accept", 2, 1}, {"accept", 2, 2}, {"reject", 3, 1}, {"reject", 2, 2}, {"no-cause", 3, 1}, {"never", 2, 0}, {"accept", 1, 2}} {
+		if !c.thorough() && sc.name == "accept" && sc.N == 1 {
+			continue
+		}
+		rt := 80 * time.Millisecond
+		w, err := newWorld(c, sysh.Opts{RespTimeout: rt.String(), MaxRetries: sc.N, ReadTimeout: 600, Peers: []string{"127.0.12.1"}})
+		if err != nil {
+			panic(err)
+		}
+		p0, err := w.s.NewPeerAt("127.0.12.1", 8805)
+		if err != nil {
+			w.emit("assocseries/skipped", false, map[string]interface{}{"k": "note", "msg": "127.0.0.1:8805 is not available: " + err.Error()})
+			w.close()
+			continue
+		}
+		w.cfgLine()
+		start := time.Now()
+		// the peer listens before the agent starts, so that every transmission is time-stamped when it arrives
+		txCh := make(chan []txRec, 1)
+		go func() {
+			txCh <- watchReq(p0, message.MsgTypeAssociationSetupRequest, 5*time.Second+time.Duration(sc.N+3)*rt, start, func(n int, seq uint32) []message.Message {
+				if sc.k == 0 || n != sc.k {
+					return nil
+				}
+				switch sc.name {
+				case "reject":
+					return []message.Message{message.NewAssociationSetupResponse(seq, ie.NewNodeID(p0.Addr, "", ""), ie.NewCause(ie.CauseRequestRejected),
+						ie.NewRecoveryTimeStamp(time.Unix(1700000000, 0)))}
+				case "no-cause":
+					return []message.Message{message.NewAssociationSetupResponse(seq, ie.NewNodeID(p0.Addr, "", ""), ie.NewRecoveryTimeStamp(time.Unix(1700000000, 0)))}
+				}
+				return []message.Message{message.NewAssociationSetupResponse(seq, ie.NewNodeID(p0.Addr, "", ""), ie.NewCause(ie.CauseRequestAccepted),
+					ie.NewRecoveryTimeStamp(time.Unix(1700000000, 0)))}
+			}, func(tx []txRec) bool {
+				// over once the series has had time to finish: (N+1) transmissions, or a quiet period of 3.5 x resp_timeout after the last one
+				return len(tx) > 0 && (len(tx) > sc.N+1 || time.Since(start)-tx[len(tx)-1].at > 3*rt+rt/2)
+			})
+		}()
+		if !w.start() {
+			w.close()
+			return
+		}
+		tx := <-txCh
+		// an accepted association serves requests; a rejected, incomplete or unanswered one is gone
+		served := false
+		if len(tx) > 0 {
+			_, served = p0.Exchange(sysh.Marshal(message.NewHeartbeatRequest(p0.NextSeq(), ie.NewRecoveryTimeStamp(time.Unix(1700000000, 0)), nil)), 400*time.Millisecond)
+		}
+		w.emit("assocseries/"+sc.name, true, map[string]interface{}{"k": "assocseries", "kind": sc.name, "N": sc.N, "rt_us": rt.Microseconds(), "answer": sc.k,
+			"obs": map[string]interface{}{"alive": !w.s.Exited(), "tx": txJSON(tx), "served": served}})
+		p0.Close()
 		w.close()
 	}
 	// ---- association setup: accepted iff the datapath is connected; advertised features follow the configuration
